@@ -179,7 +179,12 @@ def check(case, do_crosscheck=True):
             labels.add("comment-or-blank-line")
         lines.append(line)
         exp.append(e)
+    for tl in case.get("trailer", []):
+        lines.append(tl)
+        labels.add("comment-or-blank-line")
     nt = any(is_nontrivial(sm) for sm in stmts)
+    if not stmts:
+        labels.add("no-statement")      # the empty document, or one of comments / blank lines only: valid, zero triples, zero errors
     if nt:
         labels.add("nontrivial")
     if len(stmts) > 1:
@@ -404,8 +409,13 @@ def cases(draw):
     chan = draw(st.sampled_from(["raw", "raw", "raw", "raw", "file", "gz", "xz"]))
     if draw(st.integers(0, 2)) == 0:
         return {"rich": draw(st.lists(rich_stmt(), min_size=1, max_size=3)), "final_nl": draw(st.booleans()), "chan": chan}
-    return {"stmts": draw(st.lists(stmt(), min_size=1, max_size=5)), "final_nl": draw(st.booleans()),
+    trailer = draw(st.lists(st.sampled_from(["# a comment", "", "   ", "\t", "#", "  # indented"]), max_size=2)) if draw(st.integers(0, 3)) == 0 else []
+    none = draw(st.integers(0, 11)) == 0        # a document without any statement (empty, blank lines, comments only)
+    case = {"stmts": [] if none else draw(st.lists(stmt(), min_size=1, max_size=5)), "final_nl": draw(st.booleans()),
             "eol": draw(st.sampled_from(["\n", "\n", "\r\n"])), "chan": chan}
+    if trailer:
+        case["trailer"] = trailer
+    return case
 
 
 def strategy(tier):
